@@ -8,7 +8,8 @@
    Pending04 (constructor list): OpCopy OpCopyAt OpMove OpMoveAt OpSetItemName OpRemoveFile OpRemoveFromFile. *)
 From AV Require Import Base.Bytes Base.Outcome Hash.HashModel Tree.Heap Tree.Ops Tree.Script Tree.IndexProofsW
   Tree.Index Tree.IndexProofsBase Tree.IndexProofsAssoc Tree.IndexProofsFrame Tree.IndexProofsAttach
-  Tree.IndexProofsCreate Tree.IndexProofsNamed Tree.IndexProofsEdit Tree.IndexProofsModel Tree.IndexProofsRemoveOp Tree.IndexProofsRenameOps.
+  Tree.IndexProofsCreate Tree.IndexProofsNamed Tree.IndexProofsEdit Tree.IndexProofsModel Tree.IndexProofsRemoveOp Tree.IndexProofsRenameOps
+  Tree.IndexProofsFilesOps.
 Open Scope string_scope.
 Open Scope list_scope.
 Open Scope N_scope.
@@ -67,7 +68,11 @@ Proof.
   - apply welem_inv in H as (r0 & H). eapply C04_get_or_create_named; eauto.
   - apply wval_inv in H as (r0 & H). eapply C04_new_model; eauto.
   - apply wval_inv in H as (r0 & H). eapply Inv04_sv; [eapply m_create_file_sv; eauto|exact HI].
+  - apply wunit_inv in H as (r0 & H).
+    eapply (C45_remove_file T check_fn TK LATEST false) in H as (_ & H4 & _); eauto. discriminate.
   - apply wunit_inv in H as (r0 & H). eapply Inv04_sv; [eapply e_add_to_file_sv; eauto|exact HI].
+  - apply wunit_inv in H as (r0 & H).
+    eapply (C45_remove_from_file T check_fn TK LATEST false) in H as (_ & H4 & _); eauto. discriminate.
 Qed.
 
 (* ---------- all histories *)
